@@ -484,12 +484,63 @@ def r05_7_typed_variables(ctx):
     ctx.require_min("R05.7", 36)
 
 
+PARAM_FIELD_TABLES = {"asset_params_get": "ASSET_PARAMS_FIELDS", "app_params_get": "APP_PARAMS_FIELDS", "asset_holding_get": "ASSET_HOLDING_FIELDS"}
+# the accessor's Python name -> the field it is documented to read (AssetParam / AppParam / AssetHolding)
+ACCESSOR_FIELDS = {
+    "AssetHolding.balance": "AssetBalance", "AssetHolding.frozen": "AssetFrozen",
+    "AssetParam.total": "AssetTotal", "AssetParam.decimals": "AssetDecimals", "AssetParam.defaultFrozen": "AssetDefaultFrozen", "AssetParam.unitName": "AssetUnitName", "AssetParam.name": "AssetName", "AssetParam.url": "AssetURL",
+    "AssetParam.metadataHash": "AssetMetadataHash", "AssetParam.manager": "AssetManager", "AssetParam.reserve": "AssetReserve", "AssetParam.freeze": "AssetFreeze", "AssetParam.clawback": "AssetClawback", "AssetParam.creator": "AssetCreator",
+    "AppParam.approvalProgram": "AppApprovalProgram", "AppParam.clearStateProgram": "AppClearStateProgram", "AppParam.globalNumUint": "AppGlobalNumUint", "AppParam.globalNumByteSlice": "AppGlobalNumByteSlice", "AppParam.localNumUint": "AppLocalNumUint",
+    "AppParam.localNumByteSlice": "AppLocalNumByteSlice", "AppParam.extraProgramPages": "AppExtraProgramPages", "AppParam.creator": "AppCreator", "AppParam.address": "AppAddress",
+}
+
+
+def r05_8_param_accessors(ctx):
+    from spec import avm
+
+    ctx.rule("R05.8", "asset / application parameter accessors: each accessor reads the field its name says, and declares for the value it leaves the type that field has in the AVM (a bytes field declared uint64 would let arithmetic be applied to bytes, and vice versa)")
+    n = 0
+    for c in ctx.model.iter_classes():
+        if c.name not in ("AssetParam", "AppParam", "AssetHolding") or c.module.name.endswith("_test"):
+            continue
+        for nm, f in c.methods.items():
+            calls = [x for x in ast.walk(f.node) if isinstance(x, ast.Call) and u(x.func) in ("MaybeValue", "MultiValue")]
+            for call in calls:
+                if len(call.args) < 2:
+                    continue
+                op = u(call.args[0]).replace("Op.", "")
+                table = getattr(avm, PARAM_FIELD_TABLES.get(op, ""), None)
+                imm = next((k.value for k in call.keywords if k.arg == "immediate_args"), None)
+                if table is None or not (isinstance(imm, ast.List) and len(imm.elts) == 1 and isinstance(imm.elts[0], ast.Constant)):
+                    continue
+                field = imm.elts[0].value
+                declared = u(call.args[1]).replace("TealType.", "")
+                construct = f"{c.name}.{nm}"
+                n += 1
+                problems = []
+                want_field = ACCESSOR_FIELDS.get(construct)
+                if want_field is None:
+                    ctx.uncheck(f"accessor {construct} has no row in the accessor table")
+                elif field != want_field:
+                    problems.append(f"reads field `{field}`; the accessor is documented to read `{want_field}`")
+                row = table.get(field)
+                if row is None:
+                    problems.append(f"`{field}` is not a field of {op}")
+                else:
+                    want_t = {"u": "uint64", "b": "bytes"}.get(row[0])
+                    if want_t and declared != want_t:
+                        problems.append(f"declares the value as {declared}; the AVM field `{field}` is {want_t}")
+                ctx.check(not problems, "R05.8", construct, "; ".join(problems), f"{f.module.rel}:{call.lineno}", fact={"field": field, "declared": declared})
+    ctx.require_min("R05.8", 20)
+
+
 def run(ctx):  # noqa: F811
     r05_1_operand_typing(ctx)
     r05_1b_lowered_params(ctx)
     r05_2_result_typing(ctx)
     r05_3_literal_op_lists(ctx)
     r05_7_typed_variables(ctx)
+    r05_8_param_accessors(ctx)
     r05_4_construct_typing(ctx)
     r05_6_type_relation(ctx)
     from rules import c02 as _c02, c03 as _c03
